@@ -243,6 +243,7 @@ def verifyTpm (st : AttStmt) (authDataRaw : Cbor) (cdj : Bytes) (credKey : Bytes
   reject (ci.extraData != extra) (regErr "tpm.extra-data")
   let nameCose ← liftE (someOr (tpmAlgCoseAlgMap.lookup pa.nameAlg) (nonlibErr "KeyError" "tpm.name-alg-map"))
   let paHash ← hashByAlgM pubAreaBytes (some (cborOfInt nameCose))
+  reject (ci.attested.nameAlg != pa.nameAlg) (regErr "tpm.attested-name-alg")
   reject (ci.attested.nameAlgBytes ++ paHash != ci.attested.name) (regErr "tpm.attested-name")
   let leaf ← liftE (headOr x5c (nonlibErr "IndexError" "tpm.x5c0"))
   let cert ← loadCert leaf "tpm.cert"
@@ -308,8 +309,8 @@ def verifyAndroidKey (st : AttStmt) (authDataRaw : Cbor) (cdj : Bytes) (credKey 
   let kdr ← keyDescriptionM kdDer
   let kd ← liftE (someOr kdr (nonlibErr "ValueError" "akey.keydesc-parse"))
   reject (kd.attestationChallenge != cdHash) (regErr "akey.challenge")
-  reject (!kd.swAllAppsNativeIsNone) (regErr "akey.allapps-software")
-  reject (!kd.teeAllAppsNativeIsNone) (regErr "akey.allapps-tee")
+  reject kd.swAllAppsPresent (regErr "akey.allapps-software")
+  reject kd.teeAllAppsPresent (regErr "akey.allapps-tee")
   reject (kd.teeOrigin != some 0) (regErr "akey.origin")
   reject (kd.teePurpose != some [2]) (regErr "akey.purpose")
 
